@@ -10,6 +10,7 @@ set +e
 VERIF_REPO=$wt VERIF_EVIDENCE_DIR=$out VERIF_REPLAY_DIR=$out /verif/check "$@" > $out/log 2>&1
 rc=$?
 set -e
+cp $out/log /tmp/seedlog-$id.txt
 grep -E "^VIOLATION|^KNOWN|\[C[0-9]+\] tier|INCONCLUSIVE|violation " $out/log | cut -c1-400
 echo "seed $id props $* -> exit $rc"
 git -C /repo worktree remove --force $wt
